@@ -34,7 +34,7 @@ def configs(tier, seed):
                 out.append(cc)
     from tlv.harness import c05
     for c5 in c05.configs(tier, seed):
-        if c5["isn"] != "any" or c5["transform"] == "cuts" or c5["ncuts"] == 0:
+        if c5["harness"] != "segmentation" or c5["isn"] != "any" or c5["transform"] == "cuts" or c5["ncuts"] == 0:
             continue
         if tier == "quick" and c5["nrec"] + c5["ncuts"] > 3:
             continue
